@@ -41,7 +41,11 @@ def programs(tier):
     bl = [c["text"] for c in rk[0]]
     texts += bl if tier == "thorough" else [t for i, t in enumerate(bl) if i % 9 == seed() % 9]
     texts += corpus.EXIT_PROGRAMS + corpus.STACK_PROGRAMS
-    return list(dict.fromkeys(texts)), [r1, r2, rb[1], re_[1], rk[1]]
+    # constant folding seen through the claims: every operator on boundary operands (all in the thorough tier)
+    rf = tlc_generate("Gen_FoldProg")
+    fp = [c["text"] for c in rf[0]]
+    texts += fp if tier == "thorough" else [t for i, t in enumerate(fp) if i % 6 == seed() % 6]
+    return list(dict.fromkeys(texts)), [r1, r2, rb[1], re_[1], rk[1], rf[1]]
 
 
 def observe(rvh, texts, wd, name):
